@@ -109,6 +109,20 @@ def root():
     return _root
 
 
+_root2 = None
+
+
+def root2():
+    """a second document root that holds an entry called `debug-info`"""
+    global _root2
+    if _root2 is None:
+        _root2 = tempfile.mkdtemp(prefix="verif_route2_")
+        open(os.path.join(_root2, "file.txt"), "w").write("F")
+        open(os.path.join(_root2, "debug-info"), "w").write("F")
+        os.makedirs(os.path.join(_root2, "dir"))
+    return _root2
+
+
 def show_inner(d):
     return ",".join("%d=%d" % (b, f.verif_id) for b, f in sorted(d.items()))
 
@@ -179,8 +193,8 @@ def canon_model(line):
 
 def probe(app, method, path, envbits):
     """dispatch a probe request -> Sel rendering"""
-    docroot, fsx, fsf, fsd, index, debug = [c == "1" for c in envbits]
-    app.document_root = root() if docroot else ""
+    docroot, fsx, fsf, fsd, index, debug = [c in "12" for c in envbits]
+    app.document_root = (root2() if envbits[0] == "2" else root()) if docroot else ""
     app.document_index = index
     app.debug = debug
     calls = []
@@ -218,9 +232,33 @@ def probe(app, method, path, envbits):
     return "other:" + status
 
 
-def fs_bits(path):
+def probe_handler(app, op, method, arg):
+    """which exception handler (qe: exception class `arg`) or status handler (qs: status `arg`) is dispatched
+    for a request with this method -> 's<id>', 'none' (no user handler) or 'builtin'"""
+    from poorwsgi.request import Request
+    from poorwsgi.response import BaseResponse
+    from poorwsgi.wsgi import to_response
+    env = {"REQUEST_METHOD": method, "PATH_INFO": "/probe", "QUERY_STRING": "", "SERVER_NAME": "srv", "SERVER_PORT": "80",
+           "SERVER_PROTOCOL": "HTTP/1.1", "wsgi.url_scheme": "http", "wsgi.input": io.BytesIO(b""),
+           "wsgi.errors": io.StringIO(), "REQUEST_STARTTIME": 0.0}
+    req = Request(env, app)
+    if op == "qe":
+        res = app.error_from_table(req, ECLS[arg]("probe"))
+        if res is None:
+            return "none"
+    else:
+        res = app.state_from_table(req, arg)
+        if isinstance(res, BaseResponse):
+            return "builtin"
+        res = to_response(res)
+    data = res.data if hasattr(res, "data") else b""
+    text = data.decode() if isinstance(data, bytes) else str(data)
+    return text if re.fullmatch(r"s\d+", text) else "other"
+
+
+def fs_bits(path, which="1"):
     """file-system facts for root + normpath(path), computed independently of poorwsgi"""
-    full = root() + os.path.normpath(path)
+    full = (root2() if which == "2" else root()) + os.path.normpath(path)
     ex = os.path.exists(full)
     return ex, os.path.isfile(full) and os.access(full, os.R_OK), os.path.isdir(full) and os.access(full, os.R_OK)
 
@@ -290,6 +328,8 @@ def run_ops(case):
                     outs.append(views(app))
                 elif op == "q":
                     outs.append(probe(app, p[1], unhx(p[2]).decode(), p[3]))
+                elif op in ("qe", "qs"):
+                    outs.append(probe_handler(app, op, p[1], int(p[2])))
                 else:
                     outs.append("bad-op")
         except KeyError:
